@@ -11,7 +11,7 @@
 From CV Require Import Server.Server Server.ServerProofs Server.ServerSteps Server.ServerStart Server.ServerTheorems
   Server.ServerOnce Server.ServerExamples Server.AqInv Server.AqTheorems Server.ServerOrder Server.OrderTheorems
   Server.OnceTheorems Server.Live Server.NoStuck Server.Measure Server.NoPanic Server.MeasureTheorems
-  Server.Target Server.TargetTheorems.
+  Server.Target Server.TargetTheorems Server.ServerArgs.
 From Coq Require Import List Arith Bool.
 Import ListNotations.
 
@@ -293,3 +293,46 @@ Example C12_self_pipe_blocked :
   step ex_params_self c (TStart 2) = None /\ step ex_params_self c (TStartCtx 2) = None.
 Proof. exact self_pipe_blocked. Qed.
 Print Assumptions C12_self_pipe_blocked.
+
+(* ReleaseArgs (also the parameter-capability part of C07: the capabilities in a Call's cap table are
+   dropped by ReleaseArgs only).  rel c x = number of times r.ReleaseArgs() ran for call x.
+   For the code as it is (p_relfix P = true), every reachable configuration, every call x - direct or
+   pipelined, whatever path it takes through start (call after shutdown, cancelled at the gate,
+   cancelled while waiting for a slot, woken into a shutdown), the method goroutine, the answerQueue
+   (queued then delivered / rejected, pass-through, cancelled while blocked): released at most once;
+   exactly once iff x is at/past the releasing stage args_done; and released whenever x has
+   completed (Returner.Return called) - i.e. no later than its completion. *)
+Theorem C12_args_released_once : forall P c x, p_relfix P = true -> reachable P c ->
+  rel c x <= 1 /\
+  (rel c x = 1 <-> args_done P c x = true) /\
+  (compl c x <> [] -> rel c x = 1) /\
+  (finished P c x = true -> rel c x = 1).
+Proof. exact args_released_once_lemma. Qed.
+Print Assumptions C12_args_released_once.
+
+(* the counter is a function of the call's stage *)
+Theorem C12_args_rel_is_stage : forall P c x, p_relfix P = true -> reachable P c ->
+  rel c x = b2n (args_done P c x).
+Proof. exact rel_is_stage. Qed.
+Print Assumptions C12_args_rel_is_stage.
+
+(* method goroutine: released strictly before Returner.Return *)
+Theorem C12_args_released_before_return : forall P c x, p_relfix P = true -> reachable P c ->
+  p_kind P x = Direct -> (ipc c x = IDrain \/ ipc c x = IReturn) -> rel c x = 1 /\ compl c x = [].
+Proof. exact args_released_before_return_lemma. Qed.
+Print Assumptions C12_args_released_before_return.
+
+(* non-vacuity: cancelled while waiting for a slot (MaxConcurrentCalls = 1, slot held by an acked running call) *)
+Example C12_args_released_example :
+  let c := run (ex_params_rel true) (init (ex_params_rel true)) ex_sched_rel in
+  compl c 1 = [CCtx] /\ rel c 1 = 1 /\ spc c 1 = SDone /\ rel c 0 = 0.
+Proof. exact args_released_example. Qed.
+Print Assumptions C12_args_released_example.
+
+(* the variant that does r.Returner.Return(ctx.Err()) instead of r.Reject(ctx.Err()) on that branch
+   (seeded change C07-r5-2): the call completes and its arguments are never released *)
+Example C12_args_released_once_refuted :
+  exists P c x, p_relfix P = false /\ reachable P c /\ compl c x <> [] /\ finished P c x = true /\ rel c x = 0 /\
+                spc c x = SDone /\ ipc c x = INone.
+Proof. exact args_released_once_refuted_lemma. Qed.
+Print Assumptions C12_args_released_once_refuted.
